@@ -86,9 +86,9 @@ fn relabelled(quads: &[AQuad], labels: &[String], perm: &[usize], prefix: &str) 
     quads.iter().map(|q| quad_rename(q, &|b| m[b].clone())).collect()
 }
 
-fn perms_for(n: usize) -> Vec<Vec<usize>> {
+fn perms_for(n: usize, all5: bool) -> Vec<Vec<usize>> {
     let mut v = vec![];
-    if n <= 5 {
+    if n <= 4 || (n == 5 && all5) {
         let mut p: Vec<usize> = (0..n).collect();
         loop {
             v.push(p.clone());
@@ -231,7 +231,9 @@ fn check_one(gc: &GraphCase, st: &mut Stats, out: &mut Vec<Violation>) -> Option
     st.outcome("ok");
     // (1) independence from labels, order, container, for both hash functions
     let base384 = sophia_canon(&gc.quads, Container::Hash, true);
-    for perm in perms_for(n) {
+    // all n! relabellings up to 4 nodes (5 for the families of moderate size), structured ones beyond
+    let all5 = !gc.name.starts_with("loop-free-digraph(n=5");
+    for perm in perms_for(n, all5) {
         let r = relabelled(&gc.quads, &labels, &perm, "zz");
         st.inc("validated");
         st.inc("transitions");
@@ -352,7 +354,7 @@ pub fn run(tier: Tier) -> Report {
     }
     rep.stats.sample(json!({"name": cases[cases.len() / 2].name, "quads": quads_nq(&cases[cases.len() / 2].quads)}));
     rep.rule = format!(
-        "all digraphs with self-loops on <= {} blank nodes, all loop-free digraphs on {} nodes, all undirected graphs on {} nodes, 3/4-node digraphs decorated with every subset of ground marks and placed in a blank graph name (fresh or one of the nodes), symmetric families (cycles to 13, stars, cliques, K(m,n), disjoint copies, ladders, binary trees); each graph: all n! relabellings (n <= 5; 20 structured permutations beyond), 3 insertion orders x 4 containers, SHA-256 and SHA-384; the output is parsed back (independent reader and the toolkit's parser), compared with the input through the returned id map and by brute-force isomorphism, and the partition of each exhaustive family by canonical form is compared with the partition by a brute-force canonical key; non-trivial = number of isomorphism classes met",
+        "all digraphs with self-loops on <= {} blank nodes, all loop-free digraphs on {} nodes, all undirected graphs on {} nodes, 3/4-node digraphs decorated with every subset of ground marks and placed in a blank graph name (fresh or one of the nodes), symmetric families (cycles to 13, stars, cliques, K(m,n), disjoint copies, ladders, binary trees); each graph: all n! relabellings (n <= 4, and n = 5 except for the 1M loop-free digraphs; ~20 structured permutations otherwise), 3 insertion orders x 4 containers, SHA-256 and SHA-384; the output is parsed back (independent reader and the toolkit's parser), compared with the input through the returned id map and by brute-force isomorphism, and the partition of each exhaustive family by canonical form is compared with the partition by a brute-force canonical key; non-trivial = number of isomorphism classes met",
         tier.pick(3, 4),
         tier.pick(4, 5),
         tier.pick(5, 6)
